@@ -101,6 +101,7 @@ class Recorder:
         self.controllers = {}
         self.identities = []         # (node id, id(protocol), id(provider)) at initialize
         self.own_pos = []
+        self.commands = {}
 
     # -- protocol side ---------------------------------------------------------------------
     def on_callback(self, proto, kind, key, pos=None):
@@ -149,9 +150,9 @@ class Recorder:
         elif op == "cancelTimer":
             p.cancel_timer(req[1])
         elif op == "send":
-            p.send_communication_command(SendMessageCommand(req[1], req[2]))
+            p.send_communication_command(self.command(proto, "send", req[1], req[2]))
         elif op == "broadcast":
-            p.send_communication_command(BroadcastMessageCommand(req[1]))
+            p.send_communication_command(self.command(proto, "broadcast", req[1], None))
         elif op == "goto":
             p.send_mobility_command(GotoCoordsMobilityCommand(*bitsv3(req[1:4])))
         elif op == "gotoGeo":
@@ -166,6 +167,22 @@ class Recorder:
             ctl.set_transmission_range(bitsf(req[1]))
         else:
             raise ValueError(f"unknown request {op}")
+
+    def command(self, proto, kind, msg, dst):
+        """a fresh command object per request, or (scenario flag reuseCommands) one long-lived object
+        per protocol instance and kind whose fields are overwritten before every send - a legitimate
+        usage pattern: the payload that counts is the one at the time of the send"""
+        if not self.scn.get("reuseCommands"):
+            return SendMessageCommand(msg, dst) if kind == "send" else BroadcastMessageCommand(msg)
+        key = (id(proto), kind)
+        cmd = self.commands.get(key)
+        if cmd is None:
+            cmd = SendMessageCommand(msg, dst) if kind == "send" else BroadcastMessageCommand(msg)
+            self.commands[key] = cmd
+        cmd.message = msg
+        if kind == "send":
+            cmd.destination = dst
+        return cmd
 
     # -- handler side ----------------------------------------------------------------------
     def sample_positions(self):
@@ -277,6 +294,7 @@ def make_handler(rec, label, cfg, sampler):
 def build(scn, rec, sim_options=None):
     cfg = scn["cfg"]
     opts = dict(execution_logging=False)
+    opts.update(scn.get("simOptions") or {})
     opts.update(sim_options or {})
     conf = SimulationConfiguration(
         duration=None if cfg["duration"] is None else cfg["duration"] / TICK,
